@@ -149,13 +149,15 @@ class Prop:
     def __init__(self, pid: str, gen_fn: Callable[[Draw], dict], clauses: Dict[str, str], *,
                  level: str = "exploration", strategies: Optional[List[str]] = None, n_sched: int = 3,
                  quick: int = 1500, thorough: int = 40000, watchdog: bool = False,
-                 nontrivial: str = "concurrent", technique: str = "", fault_enum: bool = False) -> None:
+                 nontrivial: str = "concurrent", technique: str = "", fault_enum: bool = False,
+                 hashseeds: Optional[List[str]] = None) -> None:
         self.pid, self.gen, self.clauses, self.level = pid, gen_fn, clauses, level
         self.strategies = strategies or ["uniform", "sticky", "pct2", "pct3", "fifo2", "stall"]
         self.n_sched, self.quick, self.thorough, self.watchdog = n_sched, quick, thorough, watchdog
         self.nontrivial = nontrivial
         self.technique = technique
         self.fault_enum = fault_enum
+        self.hashseeds = hashseeds
 
 
 PROPS: Dict[str, Prop] = {}
@@ -217,3 +219,82 @@ reg(Prop("C10", g_c10, {"deact_ran": "C10.a", "count_missing": "C10.a", "value":
                         "build_raise": "C10.e"}, nontrivial="multi", n_sched=2))
 reg(Prop("C20", g_c20, {"value": "C20.a", "raise": "C20.a", "args": "C20.b", "count_missing": "C20.b", "count_extra": "C20.b",
                         "build_raise": "C20.c"}, nontrivial="multi", n_sched=2))
+
+
+# ----------------------------------------------------------------------------- fault enumeration (C14, C09 failure part)
+P_C14 = gen.profile(**{**gen.SCHED, "n_stmts": (2, 7), "p_flag": 0.15, "p_seq": 0.2,
+                       "resources": [("thread", 4), ("async_thread", 3), ("main_thread", 3)]})
+
+
+def with_fault_variants(d: Draw, scn: dict, pairs: int = 3) -> dict:
+    """Enumerate the failing node over every reference-executed call site of the last operation x {late, early, BaseException},
+    plus sampled pairs.  The variant index is the LAST draw so that a worker can enumerate all variants of one program."""
+    from .model import HistoryModel
+    ops = scn["clients"][0]
+    last = len(ops) - 1
+    exp = HistoryModel(scn).run_all().get((0, last, 0))
+    paths = sorted(p for p, s in (exp.status.items() if exp is not None and exp.exec_paths is not None else []) if s == "exec")
+    variants: List[list] = []
+    for p in paths:
+        for when, kind in (("late", "exc"), ("early", "exc"), ("late", "base")):
+            variants.append([dict(op=[0, last], path=[list(x) for x in p], when=when, kind=kind)])
+    if len(paths) >= 2:
+        for _ in range(pairs):
+            a, b = d.sample(paths, 2)
+            variants.append([dict(op=[0, last], path=[list(x) for x in a], when=d.pick(["late", "early"]), kind="exc"),
+                             dict(op=[0, last], path=[list(x) for x in b], when="late", kind=d.pick(["exc", "base"]))])
+    if not variants:
+        variants = [[]]
+    v = d.choice(len(variants))
+    scn["faults"] = variants[v]
+    scn["n_variants"] = len(variants)
+    return scn
+
+
+def g_c14(d: Draw) -> dict:
+    scn = scn_sched(d, P_C14, selections=0.15)
+    return with_fault_variants(d, scn)
+
+
+reg(Prop("C14", g_c14, {"noraise": "C14.a", "fail_identity": "C14.b", "dependent_of_failed": "C14.c",
+                        "dispatch_after_failure": "C14.d", "wrongexc": "C14.e"},
+         level="fault_enumeration", fault_enum=True, n_sched=4, quick=120, thorough=3000, nontrivial="all"))
+
+
+# ----------------------------------------------------------------------------- C07 compound priority
+P_C07 = gen.profile(**{**gen.SCHED, "prio": (-3, 6), "p_prio": 0.9, "p_flag": 0.06, "p_dep": 0.9, "max_args": 3, "n_stmts": (3, 10),
+                       "shape_bias": [("uniform", 2), ("recent", 2), ("early", 2)], "p_seq": 0.1, "w_nested": 1.0, "max_depth": 1,
+                       "ret_shapes": [("tuple", 1)], "all_return": False, "n_params": (0, 2), "p_async": 0.2})
+
+
+def g_c07(d: Draw) -> dict:
+    spec = gen.gen_program(d, P_C07)
+    dg = spec["dags"]["main"]
+    flat = all(s["k"] != "dag" for s in dg["stmts"])
+    ops: List[dict] = [dict(op="cprio", inst="E:main")]
+    if d.bool(0.4):
+        nodes = []
+        calls = [i for i, s in enumerate(dg["stmts"]) if s["k"] != "dag"]
+        for idx in d.sample(calls, d.int(1, min(3, len(calls)))) if calls else []:
+            nodes.append([["id", idx], {"priority": d.int(-3, 6)}])
+        if nodes:
+            ops.append(dict(op="config", inst="E:main", cfg={"nodes": nodes}, how=d.pick(["dict", "yaml", "json"])))
+            ops.append(dict(op="cprio", inst="E:main"))
+    if d.bool(0.3):
+        ops.append(dict(op="deepcopy", inst="E:main", **{"as": "B"}))
+        ops.append(dict(op="cprio", inst="B"))
+    if flat and d.bool(0.5):
+        sel = draw_selection(d, spec, "main")
+        ops.append(dict(op="executor", inst="E:main", sel=sel, ex="e0"))
+        ops.append(dict(op="cprio", ex="e0"))
+        ops.append(dict(op="config", inst="E:main", cfg={"max_concurrency": 1}, how="dict"))
+        ops.append(dict(op="executor", inst="E:main", sel=sel, ex="e1"))
+        ops.append(dict(op="exrun", ex="e1", args=draw_args(d, dg)))
+    else:
+        ops.append(dict(op="config", inst="E:main", cfg={"max_concurrency": 1}, how="dict"))
+        ops.append(dict(op="call", inst="E:main", args=draw_args(d, dg)))
+    return base_scn(spec, ops)
+
+
+reg(Prop("C07", g_c07, {"cprio_table": "C07.a", "order_mc1": "C07.d", "raise": "C07.a"}, nontrivial="multi", n_sched=2,
+         quick=1200, thorough=30000, hashseeds=["0", "1", "2", "3"]))
